@@ -357,13 +357,19 @@ func (x *Exec) constVal(c *ssa.Const) Val {
 // ---- heap ----
 
 type epoch struct {
-	id   int
-	all  bool
-	pref []string // class prefixes havocked
+	id     int
+	all    bool
+	pref   []string // class prefixes havocked
+	except []string // with all: class prefixes that are preserved
 }
 
 func (e epoch) matches(class string) bool {
 	if e.all {
+		for _, p := range e.except {
+			if classMatches(class, p) {
+				return false
+			}
+		}
 		return true
 	}
 	for _, p := range e.pref {
@@ -378,6 +384,9 @@ func (e epoch) matches(class string) bool {
 func classMatches(class, pat string) bool {
 	if class == pat {
 		return true
+	}
+	if strings.HasSuffix(pat, ".") {
+		return strings.HasPrefix(class, pat) // whole-package pattern such as "parser."
 	}
 	if strings.HasPrefix(class, pat) && len(class) > len(pat) && (class[len(pat)] == '.' || class[len(pat)] == '#' || class[len(pat)] == '@') {
 		return true
@@ -399,6 +408,7 @@ type State struct {
 	trace   []string
 	noSide  bool // spec evaluation: do not add side assumptions
 	param   *paramHeap
+	pending Term // ghost: first error returned by a propagating callee and not yet returned
 }
 
 type dirtyObj struct {
@@ -410,10 +420,11 @@ type LogEntry struct {
 	Callee string
 	Args   []Val
 	Res    []Val
+	Depth  int
 }
 
 func (st *State) clone() *State {
-	n := &State{alloc: st.alloc, inQuant: st.inQuant, noSide: st.noSide}
+	n := &State{alloc: st.alloc, inQuant: st.inQuant, noSide: st.noSide, pending: st.pending, param: st.param}
 	n.heap = make(map[string]Term, len(st.heap))
 	for k, v := range st.heap {
 		n.heap[k] = v
@@ -454,8 +465,12 @@ type classInfo struct {
 
 // havoc forgets the contents of the given class prefixes (or everything).
 func (x *Exec) havoc(st *State, all bool, prefixes []string) {
+	x.havocExcept(st, all, prefixes, nil)
+}
+
+func (x *Exec) havocExcept(st *State, all bool, prefixes, except []string) {
 	x.nepoch++
-	e := epoch{id: x.nepoch, all: all, pref: prefixes}
+	e := epoch{id: x.nepoch, all: all, pref: prefixes, except: except}
 	for k := range st.heap {
 		if e.matches(k) {
 			delete(st.heap, k)
